@@ -211,6 +211,9 @@ STRENGTHENED = {
     "C04-mut7_C04-r7m1": "missed at first (update_variables restarting from the stale y0 of the PREVIOUS override: only a variable the "
                          "second override does not name shows it); the family got the bystander variable z (same equation, never named "
                          "in an override; Simulator.tla HistOf / Bystander), 214 value mismatches afterwards",
+    "C09-mut7_C09-r7m1": "missed at first (row entries equal to the model's current evaluated value skipped: an assignment-defined "
+                         "parameter whose row value equals what the assignment gives on the caller's model stays an assignment); "
+                         "ParMap RowVal: row 2 carries exactly that value for the column q (with another x in the same row)",
     "C17-mut_C17-r5m2": "missed at first (sbml.read memoising the parsed document by path); SbmlSession Rewrite(d): the file of a "
                         "document replaced by its twin between two reads, path-memo instance refuted",
 }
